@@ -36,7 +36,8 @@ def run(tier):
                  '(("[name]" = "SALT AND PEPPER" OR [c] = 1) AND [d] = 2)', '(([a] = 1 OR [b] = 2 AND [c] = 3) OR [d] = 4)',
                  '([a] + 1 * 2 > 3 AND ([b] - 1) / 2 < 4)', '(!([a] = 1) && [b] != 2 || [c] >= 3)', '((([a] = 1)))',
                  '(length([n]) > 2 AND tostring([x],"%.1f") = "1.0")', '([a] IN "1,2,3" OR [b] ~ "^x")', '(-[a] + -2 < 0)',
-                 '(([a] = 1 AND ([b] = 2 OR ([c] = 3 AND [d] = 4))) OR NOT ([e] = 5))']
+                 '(([a] = 1 AND ([b] = 2 OR ([c] = 3 AND [d] = 4))) OR NOT ([e] = 5))',
+                 '(- -5 > [a])', '([a] * - -2.5 > 1)', '(- -2 * [width] < 3)', '([a] > 1e16 AND [b] < 1.5e-07)']
     for e_i, ex in enumerate(list(concretise.EXPR_POOL) + src_exprs):
         conc = concretise.Concretiser(seed, exprs=[ex], avoid_quote="\"'")
         for h in sl:
